@@ -279,4 +279,4 @@ Fixpoint dowild (early cf pn : bool) (n d : nat) (p t : bytes) : res :=
 
 (* int wildmatch(pattern, text, flags): cf = WM_CASEFOLD, pn = WM_PATHNAME *)
 Definition git_wildmatch (cf pn : bool) (p t : bytes) : bool :=
-  res_eqb (dowild true cf pn (S (length p)) (S (length p)) p t) Match.
+  res_eqb (dowild true cf pn (S (length p)) (S (S (length p))) p t) Match.
